@@ -44,8 +44,23 @@ def _ops(p, names):
   return p
 
 
+class SlowGen:
+  """A non-shardable source: a generator that takes a moment per element, so worker threads overlap inside it."""
+
+  def __init__(self, n):
+    self.n = n
+
+  def __iter__(self):
+    import time
+    for x in range(self.n):
+      time.sleep(0.0003)
+      yield x
+
+
 def _source(kind, n):
   from ml_metrics._src.chainables import io
+  if kind == 'slow-generator':
+    return SlowGen(n)
   data = list(range(n))
   return io.SequenceDataSource(data) if kind == 'sequence' else io.ShardedIterable(data)
 
@@ -142,15 +157,20 @@ def body(chk):
   repeats = 2 if not thorough else 8
   n_runs = 0
   for prog in PROGRAMS:
-    for kind in ('sequence', 'sharded-iterable'):
-      for n in sizes:
+    for kind in ('sequence', 'sharded-iterable', 'slow-generator'):
+      # long sources exercise the 64-element read-ahead across shard boundaries
+      for n in sizes + ((150, 300) if kind == 'sequence' and prog in ('map', 'mapfilter') else ()):
         ref = _sequential(prog, n)
         for name, kw, how, ordered in strategies(prog, thorough):
+          if kind == 'slow-generator' and how not in ('plain', 'interleaved'):
+            continue        # a generator cannot be cut into shards
+          if n >= 100 and not (name.startswith('shards=') or name in ('fused threads=2', 'fused threads=3', 'fused threads=0')):
+            continue
           threaded = 'threads=0' not in name and how != 'interleaved' or 'threads=2' in name or 'threads=3' in name
           for rep in range(repeats if threaded else 1):
             cfg = f'{prog} over {kind}[{n}] / {name}'
             ctx = dict(kind='exec-strategy', program=prog, source=kind, n=n, strategy=name)
-            sig_src = 'sharded-iterable' if kind != 'sequence' else 'sequence'
+            sig_src = kind
             strat = name.split(' threads')[0].split(' split')[0]
             has_thr = any(f'threads={t}' in name for t in (1, 2, 3)) or any(x in name for x in ('=1,', '=2,', ',1', ',2'))
             try:
